@@ -61,7 +61,7 @@ public:
   virtual bool is_copy_assignable() const;
   virtual bool is_destructible() const;
   bool is_default_constructible(CPPVisibility min_vis) const;
-  bool is_copy_constructible(CPPVisibility min_vis) const;
+  bool is_copy_constructible(CPPVisibility min_vis, bool from_const = true) const;
   bool is_move_constructible(CPPVisibility min_vis  = V_public) const;
   bool is_copy_assignable(CPPVisibility min_vis) const;
   bool is_move_assignable(CPPVisibility min_vis = V_public) const;
